@@ -169,3 +169,143 @@ class collate_tags:
         es = self.entries
         final = CT(es, len(es))
         return {"P_collated": forall(str, lambda q: has(result, q) == has(final, q) and implies(has(result, q), eq(get(result, q), get(final, q))))}
+
+
+# ------------------------------------------------------------------------------------------
+# multi-shot functions
+@spec
+def FIN(shot):
+    """register file of a shot after all of its entries (the statement's replay)"""
+    return RP(shot.entries, len(shot.entries))
+
+
+@spec
+def shot_ok(shot):
+    return forall(int, lambda k: implies(0 <= k and k < len(shot.entries), entry_ok(nth(shot.entries, k)[0], nth(shot.entries, k)[1])))
+
+
+@spec
+def renders(s, bits):
+    """the string s is the concatenation of the 1-character bits"""
+    return len(s) == len(bits) and forall(int, lambda j: implies(0 <= j and j < len(bits), s[j] == nth(bits, j)))
+
+
+@spec
+def SI(shots, i):
+    """ghost: for every register, the indices (< i) of the shots that write it, in shot order"""
+    return ghost("shots_with_register", "Dict[str, Seq[int]]", shots, i)
+
+
+@spec
+def si_step(S0, S1, F, i):
+    """S1 is S0 after shot number i, whose register file is F: i is appended for every register of the shot."""
+    return (forall(str, lambda q: has(S1, q) == (has(S0, q) or has(F, q)))
+            and forall(str, lambda q: implies(has(S0, q) and not has(F, q), eq(get(S1, q), get(S0, q))))
+            and forall(str, lambda q: implies(has(F, q), eq(get(S1, q), concat(ite(has(S0, q), get(S0, q), empty_seq(int)), Seq(int, i))))))
+
+
+@spec
+def si_wf(shots, S, i):
+    """every listed index is a shot before i that has the register; lists are non-empty"""
+    return forall(str, lambda q: implies(has(S, q), len(get(S, q)) >= 1 and forall(int, lambda k: implies(
+        0 <= k and k < len(get(S, q)), 0 <= nth(get(S, q), k) and nth(get(S, q), k) < i and has(FIN(nth(shots, nth(get(S, q), k))), q)))))
+
+
+@spec
+def strings_of(shots, S, D, q, n):
+    """the first n strings D holds for register q are those of the shots S lists for it, in that order"""
+    return forall(int, lambda k: implies(0 <= k and k < n, renders(nth(get(D, q), k), get(FIN(nth(shots, nth(get(S, q), k))), q))))
+
+
+@spec
+def listed(idxs, j):
+    return exists(int, lambda k: 0 <= k and k < len(idxs) and nth(idxs, k) == j)
+
+
+@spec
+def si_sorted(S):
+    return forall(str, lambda q: implies(has(S, q), forall(int, lambda k: implies(0 <= k and k + 1 < len(get(S, q)), nth(get(S, q), k) < nth(get(S, q), k + 1)))))
+
+
+@spec
+def names_differ(shots):
+    return exists(int, lambda j: 0 < j and j < len(shots) and exists(str, lambda q: has(FIN(nth(shots, j)), q) != has(FIN(nth(shots, 0)), q)))
+
+
+@spec
+def lengths_differ(shots):
+    return exists(int, lambda j1: exists(int, lambda j2: exists(str, lambda q:
+        0 <= j1 and j1 < j2 and j2 < len(shots) and has(FIN(nth(shots, j1)), q) and has(FIN(nth(shots, j2)), q)
+        and len(get(FIN(nth(shots, j1)), q)) != len(get(FIN(nth(shots, j2)), q)))))
+
+
+@contract("hugr.qsystem.result.QsysResult.register_bitstrings", props=["C19"])
+class register_bitstrings:
+    types = {"strict_names": "bool", "strict_lengths": "bool"}
+    returns = "Dict[str, Seq[str]]"
+
+    def modifies(self, strict_names, strict_lengths):
+        return []
+
+    def raises(self, strict_names, strict_lengths):
+        rs = self.results
+        return {ValueError: exists(int, lambda j: 0 <= j and j < len(rs) and not shot_ok(nth(rs, j)))
+                or (strict_names and names_differ(rs))
+                or (strict_lengths and lengths_differ(rs))}
+
+    def loop_1(self, strict_names, strict_lengths, shot_dct, _i1):
+        rs = self.results
+        S = SI(rs, _i1)
+        return {
+            "A_si_0": forall(str, lambda q: not has(SI(rs, 0), q)),
+            "A_si_step": implies(_i1 < len(rs), si_step(S, SI(rs, _i1 + 1), FIN(nth(rs, _i1)), _i1)),
+            "accepted_so_far": forall(int, lambda j: implies(0 <= j and j < _i1, shot_ok(nth(rs, j)))),
+            "si_wf": si_wf(rs, S, _i1),
+            "registers": forall(str, lambda q: has(shot_dct, q) == has(S, q)),
+            "lengths": forall(str, lambda q: implies(has(shot_dct, q), len(get(shot_dct, q)) == len(get(S, q)))),
+            "strings": forall(str, lambda q: implies(has(shot_dct, q), strings_of(rs, S, shot_dct, q, len(get(S, q))))),
+            "covers": forall(int, lambda j: forall(str, lambda q: implies(0 <= j and j < _i1 and has(FIN(nth(rs, j)), q), has(S, q) and listed(get(S, q), j)))),
+            "si_sorted": si_sorted(S),
+            "names_so_far": implies(strict_names, forall(int, lambda j: forall(str, lambda q: implies(0 <= j and j < _i1, has(FIN(nth(rs, j)), q) == has(S, q))))),
+            "lengths_so_far": implies(strict_lengths, forall(int, lambda j: forall(str, lambda q: implies(
+                0 <= j and j < _i1 and has(FIN(nth(rs, j)), q), len(get(FIN(nth(rs, j)), q)) == len(get(FIN(nth(rs, nth(get(S, q), 0))), q)))))),
+        }
+
+    def loop_2(self, strict_names, strict_lengths, shot_dct, bitstrs, _i1, _i2, _seq2):
+        rs = self.results
+        F = FIN(nth(rs, _i1))
+        S = SI(rs, _i1)
+        done = lambda q: exists(int, lambda m: 0 <= m and m < _i2 and nth(_seq2, m) == q)
+        return {
+            "A_si_step": si_step(S, SI(rs, _i1 + 1), F, _i1),
+            "in_range": 0 <= _i1 and _i1 < len(rs),
+            "shot_result": forall(str, lambda q: has(bitstrs, q) == has(F, q) and implies(has(bitstrs, q), renders(get(bitstrs, q), get(F, q)))),
+            "accepted_so_far": forall(int, lambda j: implies(0 <= j and j <= _i1, shot_ok(nth(rs, j)))),
+            "si_wf": si_wf(rs, S, _i1),
+            "registers": forall(str, lambda q: has(shot_dct, q) == (has(S, q) or done(q))),
+            "lengths_done": forall(str, lambda q: implies(done(q), len(get(shot_dct, q)) == ite(has(S, q), len(get(S, q)), 0) + 1)),
+            "lengths_rest": forall(str, lambda q: implies(has(S, q) and not done(q), len(get(shot_dct, q)) == len(get(S, q)))),
+            "strings": forall(str, lambda q: implies(has(S, q), strings_of(rs, S, shot_dct, q, len(get(S, q))))),
+            "appended": forall(str, lambda q: implies(done(q), nth(get(shot_dct, q), len(get(shot_dct, q)) - 1) == get(bitstrs, q))),
+            "covers": forall(int, lambda j: forall(str, lambda q: implies(0 <= j and j < _i1 and has(FIN(nth(rs, j)), q), has(S, q) and listed(get(S, q), j)))),
+            "si_sorted": si_sorted(S),
+            "names_so_far": implies(strict_names, forall(int, lambda j: forall(str, lambda q: implies(0 <= j and j < _i1, has(FIN(nth(rs, j)), q) == has(S, q))))
+                                    and implies(_i1 > 0, forall(str, lambda q: has(F, q) == has(S, q)))),
+            "lengths_so_far": implies(strict_lengths,
+                                      forall(int, lambda j: forall(str, lambda q: implies(0 <= j and j < _i1 and has(FIN(nth(rs, j)), q),
+                                                                                          len(get(FIN(nth(rs, j)), q)) == len(get(FIN(nth(rs, nth(get(S, q), 0))), q)))))
+                                      and forall(str, lambda q: implies(done(q) and has(S, q), len(get(F, q)) == len(get(FIN(nth(rs, nth(get(S, q), 0))), q))))),
+        }
+
+    def ensures(self, strict_names, strict_lengths, result):
+        rs = self.results
+        S = SI(rs, len(rs))
+        return {
+            "P_registers": forall(str, lambda q: has(result, q) == has(S, q)),
+            "P_one_string_per_shot": forall(str, lambda q: implies(has(result, q), len(get(result, q)) == len(get(S, q)))),
+            # the k-th string of a register is the rendering of that register in the k-th shot that writes it
+            "P_bitstrings": forall(str, lambda q: implies(has(result, q), strings_of(rs, S, result, q, len(get(S, q))))),
+            "P_shot_order": si_sorted(S),
+            "P_all_shots": forall(int, lambda j: forall(str, lambda q: implies(0 <= j and j < len(rs) and has(FIN(nth(rs, j)), q), has(S, q) and listed(get(S, q), j)))),
+            "P_only_shots_with_the_register": si_wf(rs, S, len(rs)),
+        }
